@@ -523,7 +523,7 @@ func c03units(tier string) []mc.Unit {
 	us = append(us, mc.Unit{Name: "molecule-x-alphabet", Serial: true, Weight: 20, Run: func(r *mc.Recorder) {
 		memo := &c3memo{first: map[string]string{}}
 		var cnt int64
-		for _, mt := range []string{"DNA", "RNA", "mRNA", "tRNA", "rRNA", "ss-DNA", "ds-DNA", "ss-RNA", "cRNA"} {
+		for _, mt := range []string{"DNA", "mRNA", "tRNA", "rRNA"} { // the LOCUS molecule types of the property's domain
 			for _, alpha := range []string{"acgt", "acgu", "acgtu", "acgtn", "acgtrykmswbdhvn", "augc"} {
 				for _, n := range []int{1, 59, 60, 61, 130} {
 					var s poly.Sequence
@@ -545,7 +545,7 @@ func c03units(tier string) []mc.Unit {
 		r.AddStates(cnt)
 		r.AddTransitions(cnt)
 		r.AddNontrivial(cnt)
-		r.Bound("molecule-x-alphabet", "9 molecule types x 6 alphabets x 5 lengths")
+		r.Bound("molecule-x-alphabet", "4 molecule types x 6 alphabets x 5 lengths")
 	}})
 	us = append(us, mc.Unit{Name: "files", Weight: 10, Run: func(r *mc.Recorder) {
 		dir, err := os.MkdirTemp("", "c03")
